@@ -88,6 +88,13 @@ Definition fkey_eqb (a b : fkey) : bool :=
   let '(i1, v1, n1) := a in let '(i2, v2, n2) := b in N.eqb i1 i2 && ustr_eqb v1 v2 && ustr_eqb n1 n2.
 Definition in_filling (k : fkey) (l : list fkey) : bool := existsb (fkey_eqb k) l.
 
+(* value_for_struct_props: what is handed to the FLATTENED members -- the entries of the value whose key is not the
+   SERIALIZED (wire) name of a direct member (`prop_map` is keyed by the rename when there is one, value.rs) *)
+Definition direct_wire_names (props : list prop) : list ustring :=
+  flat_map (fun p => match wire_name p with Some n => [n] | None => [] end) props.
+Definition flatten_remainder (props : list prop) (m : list (ustring * json)) : list (ustring * json) :=
+  filter (fun '(k, _) => negb (mem_ustr k (direct_wire_names props))) m.
+
 Section Det.
   Variable T : space.
   Variable rec : id -> json -> res expr.            (* output_value with the same FILLING stack *)
@@ -122,8 +129,7 @@ Section Det.
                 end
             end
         end) props;
-    let names := flat_map (fun p => match wire_name p with Some n => [n] | None => [] end) props in
-    let extra := JObj (filter (fun '(k, _) => negb (mem_ustr k names)) m) in
+    let extra := JObj (flatten_remainder props m) in
     do flat <- filter_map_r (fun p =>
         match p_rename p with
         | RFlatten =>
@@ -591,6 +597,9 @@ Fixpoint approx (d r : json) {struct d} : bool :=
 Open Scope string_scope.
 Infix "^^" := String.append (at level 60, right associativity).
 Open Scope list_scope.
+(* identifiers: ASCII as is, other scalars as \\uXXXX (Coq strings are byte strings) *)
+Definition show_ident (s : ustring) : string :=
+  fold_right (fun c a => (if (c <? 128)%N then String (ascii_of_N c) EmptyString else show_scalar c) ^^ a) "" s.
 Definition sp_join (l : list string) : string := String.concat " " l.
 Definition path (segs : list string) : list string :=
   flat_map (fun s => [":"; ":"; s]) segs.
@@ -600,9 +609,9 @@ Definition show_num (v : json) : string :=
   | JFlt q => "#" ^^ show_Z (Qnum q) ^^ "/" ^^ show_Z (Zpos (Qden q))
   | _ => "#?"
   end.
-Definition ty_tok (s : ustring) : string := "@T{" ^^ string_of_ustring s ^^ "}".
+Definition ty_tok (s : ustring) : string := "@T{" ^^ show_ident s ^^ "}".
 Definition fname_tok (f : fname) : string :=
-  match f with FId s => string_of_ustring s | FLit s => "S" ^^ show_ustr s end.
+  match f with FId s => show_ident s | FLit s => "S" ^^ show_ustr s end.
 
 Fixpoint toks (e : expr) {struct e} : list string :=
   let commas := fix go (es : list expr) : list string :=
@@ -622,7 +631,7 @@ Fixpoint toks (e : expr) {struct e} : list string :=
   match e with
    | EBool true => ["true"]
    | EBool false => ["false"]
-   | ENum v suf => [show_num v ^^ "_" ^^ string_of_ustring suf]
+   | ENum v suf => [show_num v ^^ "_" ^^ show_ident suf]
    | ENonZero ty v => [ty_tok ty; ":"; ":"; "new"; "("; show_num v; ")"; "."; "unwrap"; "("; ")"]
    | EStr s => ["S" ^^ show_ustr s; "."; "to_string"; "("; ")"]
    | ENone => path ["std"; "option"; "Option"; "None"]
@@ -646,11 +655,11 @@ Fixpoint toks (e : expr) {struct e} : list string :=
        ["]"; "."; "into_iter"; "("; ")"; "."; "collect"; "("; ")"]
    | EUnit => ["("; ")"]
    | EDefault => ["Default"; ":"; ":"; "default"; "("; ")"]
-   | EStruct name fs => [string_of_ustring name; "{"] ++ fields fs ++ ["}"]
-   | EVarUnit ty var => [string_of_ustring ty; ":"; ":"; string_of_ustring var]
-   | EVarTuple ty var es => [string_of_ustring ty; ":"; ":"; string_of_ustring var; "("] ++ commas es ++ [")"]
-   | EVarStruct ty var fs => [string_of_ustring ty; ":"; ":"; string_of_ustring var; "{"] ++ fields fs ++ ["}"]
-   | ECtor name es => [string_of_ustring name; "("] ++ commas es ++ [")"]
+   | EStruct name fs => [show_ident name; "{"] ++ fields fs ++ ["}"]
+   | EVarUnit ty var => [show_ident ty; ":"; ":"; show_ident var]
+   | EVarTuple ty var es => [show_ident ty; ":"; ":"; show_ident var; "("] ++ commas es ++ [")"]
+   | EVarStruct ty var fs => [show_ident ty; ":"; ":"; show_ident var; "{"] ++ fields fs ++ ["}"]
+   | ECtor name es => [show_ident name; "("] ++ commas es ++ [")"]
    | EParse (Some ty) v =>
        path ["serde_json"; "from_str"] ++ [":"; ":"; "<"; ty_tok ty; ">"; "("; "J" ^^ show_json v; ")";
                                            "."; "unwrap"; "("; ")"]
